@@ -32,6 +32,7 @@ runs_of() { # <ID> <tier>; thorough runs are additionally bounded by the time bu
         quick:C14) echo 160000 ;;
         quick:C03|quick:C06|quick:C05|quick:C09|quick:C13) echo 200000 ;;
         quick:C07) echo 440000 ;;
+        quick:C01) echo 240000 ;;
         quick:*) echo 300000 ;;
         thorough:C15) echo 4000 ;;
         thorough:*) echo 40000000 ;;
